@@ -359,3 +359,129 @@ reg(Contract(
               lambda c: z3.BoolVal(c.raised == "RuntimeError") == z3.And(c.a("return_code") != 0, z3.Not(c.a("cp2k_was_terminated"))))],
     canaries=[("never_raises", lambda c: z3.BoolVal(not c.raised))],
 ))
+
+
+# ------------------------------------------------------------------ TurtleMD: in-process generator; pos/vel buffers are refreshed from the MD state before each write
+TMD_PY = "infretis/classes/engines/turtlemdengine.py"
+
+
+class Buf:
+    """The pos / vel / box buffers written to the xyz file: the ghost version of the MD state they were last refreshed from."""
+
+    pyvc_heap_backed = True
+
+    def __init__(self, name):
+        self.name = name
+
+    def truth(self, st):
+        return True
+
+    def pyvc_havoc(self, n, st, ex):
+        return self
+
+    def pyvc_setitem(self, idx, v, st, ex, node):
+        if not isinstance(v, Frame):
+            raise Unsupported(f"{self.name}[...] = {v!r}")
+        st.ghost = dict(st.ghost, **{"buf_" + self.name: _fid(v)})
+
+    def pyvc_eq(self, other, st, ex):
+        return other is self
+
+    def compare_is(self, other):
+        return other is self
+
+
+class TmdState:
+    """tmd_system inside the loop: .particles.pos / .particles.vel / .box.length carry the version of the current step."""
+
+    def truth(self, st):
+        return True
+
+    def pyvc_getattr(self, attr, st, ex):
+        if attr in ("particles", "box"):
+            return self
+        if attr in ("pos", "vel", "length"):
+            return Frame(_iv(st.env["i"]), attr)
+        raise Unsupported(f"tmd_system.{attr}")
+
+
+class TmdSteps:
+    def __init__(self, n):
+        self.n = n
+
+    def pyvc_elem_at(self, it, st, ex):
+        return StepObj(), self.n
+
+
+class StepObj:
+    def truth(self, st):
+        return True
+
+    def pyvc_getattr(self, attr, st, ex):
+        return BoundMethod(self, attr)
+
+    def pyvc_method(self, name, args, kwargs, st, ex, node):
+        if name == "thermo":
+            yield st, {"ekin": fresh("ekin", REAL), "vpot": fresh("vpot", REAL)}
+            return
+        raise Unsupported(f"step.{name}")
+
+
+class SimObj(StepObj):
+    def __init__(self, n):
+        self.n = n
+
+    def pyvc_method(self, name, args, kwargs, st, ex, node):
+        if name == "run":
+            yield st, TmdSteps(self.n)
+            return
+        raise Unsupported(f"tmd_simulation.{name}")
+
+
+class ThermoDict:
+    pyvc_heap_backed = True
+
+    def truth(self, st):
+        return True
+
+    def pyvc_subscript(self, idx, st, ex, node):
+        return Sink()
+
+
+def _tmd_write(ex, st, bound, node):
+    g = st.ghost
+    k = _iv(st.env["step_nr"])
+    cur = _iv(st.env["i"])
+    ex.oblige(st, f"written_positions_are_the_current_state@{node.lineno}", z3.And(z3.BoolVal(isinstance(bound["pos"], Buf) and bound["pos"].name == "pos"), g["buf_pos"] == cur))
+    ex.oblige(st, f"written_velocities_are_the_current_state@{node.lineno}", z3.And(z3.BoolVal(isinstance(bound["vel"], Buf) and bound["vel"].name == "vel"), g["buf_vel"] == cur))
+    ex.oblige(st, f"file_frame_index_equals_step_nr@{node.lineno}", g["written"] == k)
+    st.ghost = dict(g, WRITTEN=z3.Store(g["WRITTEN"], g["written"], cur), written=g["written"] + 1)
+    yield st, None
+
+
+class TmdSelf(AseSelf):
+    pass
+
+
+def _tmd_make(box_none):
+    def make(ex, st):
+        sub, n = fresh("subcycles", INT), fresh("nsteps", INT)
+        st.assume(sub >= 1, n >= 0)
+        st.ghost.update(written=z3.IntVal(0), WRITTEN=fresh("WRITTEN", z3.ArraySort(INT, INT)), buf_pos=fresh("bp", INT), buf_vel=fresh("bv", INT), buf_box=fresh("bb", INT), ver=z3.IntVal(0))
+        rev = fresh("reverse", BOOL)
+        return {"self": TmdSelf("step_nr", {"subcycles": sub, "dim": fresh("dim", INT), "boltzmann": fresh("kb", REAL)}), "tmd_simulation": SimObj(n), "tmd_system": TmdState(),
+                "pos": Buf("pos"), "vel": Buf("vel"), "box": None if box_none else Buf("box"), "atoms": Opaque("atoms"), "thermo": ThermoDict(), "path": Opaque("path"),
+                "step_nr": 0, "system": SysObj(rev), "msg_file": Opaque("msg_file"), "traj_file": "traj.xyz", "reverse": rev,
+                "left": fresh("left", REAL), "right": fresh("right", REAL), "status": Opaque("s"), "success": False}
+    return make
+
+
+reg(Contract(
+    "TurtleMDEngine._propagate_from#frames", src=(TMD_PY, "TurtleMDEngine._propagate_from"), slice=_loop_over("step"),
+    cases=[Case("box", _tmd_make(False)), Case("no_box", _tmd_make(True))],
+    ensures=[("loop_terminates_normally", lambda c: z3.BoolVal(not c.raised))],
+    canaries=[("never_consumes", lambda c: c.st.ghost.get("appended", z3.IntVal(0)) == 0)],
+    loops={"for:i,step": LoopSpec(lambda ctx: [("one_file_frame_per_phase_point", ctx.st.ghost["written"] == _iv(ctx.v("step_nr")))],
+                                  ghost_init=lambda c: {k: c.st.ghost[k] for k in ("written", "WRITTEN", "buf_pos", "buf_vel", "buf_box")} | {"appended": c.st.ghost.get("appended", z3.IntVal(0))})},
+    overrides={"write_xyz_trajectory": Contract("write_xyz_trajectory", params=["filename", "pos", "vel", "names", "box", "step", "append"], defaults={"step": None, "append": True}, custom=_tmd_write)},
+))
